@@ -175,7 +175,7 @@ theorem inv_step {s s' : State} (hi : Inv s) (hs : Step s s') : Inv s' := by
     | rd n l =>
       unfold startOp
       simp only [hini, Bool.not_true, Bool.false_eq_true, if_false]
-      refine ⟨by simp [readLoop_initiated, hini], invA_readLoop _ n l (invA_congr rfl rfl rfl rfl hA), ?_⟩
+      refine ⟨by simp [readLoop_initiated], invA_readLoop _ n l (invA_congr rfl rfl rfl rfl hA), ?_⟩
       apply invC_readLoop
       · intro hcl
         obtain ⟨hr, hcur⟩ := h1 hcl
